@@ -662,3 +662,55 @@ Theorem C02_present_key_never_throws :
   good c hash t -> key_in (cur t) k -> forall e : exn, snd (uprase_gen c hash mode t k v g) <> inl e.
 Proof. exact uprase_gen_present_no_exn. Qed.
 Print Assumptions C02_present_key_never_throws.
+
+(* ---- inside a locked_table (LockedRefine.v): every locked-table operation refines the abstract map; lock_table on a table with pending stripes exposes every element ---- *)
+From LC Require Import LockedRefine.
+Theorem C02_every_locked_table_operation_refines_the_map :
+  forall (c : config) (hash : N -> N),
+  cfg_ok c ->
+  forall (fapply : fnk -> Z -> bool -> Z * bool) (w : world) (a : nat) (s : tslot)
+  (o : op) (w' : world) (r : out) (m : amap),
+  nothrow c = true ->
+  active s = true ->
+  locked_op o = true ->
+  good c hash (tb s) ->
+  rep c (tb s) m ->
+  lop_pre c (tb s) o ->
+  step_some c hash fapply w a s o = (w', r) -> esc c hash (tb s) \/ lpost c hash w a s o w' r m.
+Proof. exact locked_mode_op_refines. Qed.
+Print Assumptions C02_every_locked_table_operation_refines_the_map.
+
+Theorem C02_lock_table_from_any_pending_state :
+  forall (c : config) (hash : N -> N),
+  cfg_ok c ->
+  forall (fapply : fnk -> Z -> bool -> Z * bool) (w : world) (a : nat) (s : tslot)
+  (w' : world) (r : out) (m : amap),
+  active s = false ->
+  lgood c hash (tb s) ->
+  rep c (tb s) m ->
+  step_some c hash fapply w a s OLock = (w', r) ->
+  let t' := rehash_with_workers c hash (tb s) in
+  w' = reset_its (put_tab w a (Some {| tb := t'; active := true |})) /\
+  r = [RNone] /\
+  good c hash t' /\
+  lim_same (tb s) t' /\
+  rep c t' m /\
+  bhp (cur t') = bhp (cur (tb s)) /\ tsize t' = tsize (tb s) /\ rc t' = rc (tb s) /\ nrem t' = 0.
+Proof. exact refines_OLock. Qed.
+Print Assumptions C02_lock_table_from_any_pending_state.
+
+Theorem C02_locked_step_keeps_the_section_invariant :
+  forall (c : config) (hash : N -> N),
+  cfg_ok c ->
+  forall (fapply : fnk -> Z -> bool -> Z * bool) (w : world) (a : nat) (t : table)
+  (m : amap) (o : op) (w' : world) (r : out),
+  nothrow c = true ->
+  destructive c = false ->
+  locked_op o = true ->
+  o <> OUnlock ->
+  sect c hash w a t m ->
+  step c hash fapply w a o = (w', r) ->
+  exists (t' : table) (m' : amap),
+  w' = lop_world w a o t' r /\ sect c hash w' a t' m' /\ lim_same t t' /\ lop_spec c t m o r t' m'.
+Proof. exact locked_step_in_section. Qed.
+Print Assumptions C02_locked_step_keeps_the_section_invariant.
